@@ -77,6 +77,10 @@ EXPLANATION += (
     ' Round 11: index arrays of the re-shaped marker table are not forced into the type of an input array (R-CAP/index-cast-to-input-type).'
 )
 
+EXPLANATION += (
+    ' Round 13: the selection functions compute every output from the selection on every return (R-AGREE/returns-depend-alike).'
+)
+
 RULE_TEXT = (
     "one obligation per loop exit, per filled-slot condition, per "
     "bookkeeping store and per provenance relation")
